@@ -1,6 +1,5 @@
 (* C12 - Association, heartbeat and retransmission contract.  Statements only.
-   n = max_req_retries (any N), c = the connection's state (sequence counter, left-over pending
-   entries, reader status), tr = everything that happens while the request is outstanding. *)
+   n = max_req_retries (any N), c = the connection's state (sequence counter, pending-request table), tr = everything that happens while the request is outstanding. *)
 From Coq Require Import NArith List Bool.
 From UPF Require Import Model.Retrans Proofs.RetransProofs.
 Import ListNotations.
@@ -46,11 +45,29 @@ Theorem C12_refines_trace_spec : forall n c tr, healthy c ->
 Proof. exact exchange_refines_spec. Qed.
 Print Assumptions C12_refines_trace_spec.
 
-(* the first response carrying the stored number ends the exchange: Answered, no further
+(* the key a request is stored under IS its wire sequence number, for every counter value (24-bit
+   counter, wraps from 2^24-1 to 0): matching below is matching of what travels on the wire *)
+Theorem C12_key_is_wire_seq : forall c, wire_seq (next_seq c) = next_seq c.
+Proof. exact key_is_wire_seq. Qed.
+Print Assumptions C12_key_is_wire_seq.
+
+Theorem C12_match_is_wire_match : forall c e,
+  ends (next_seq c) e =
+  match e with Resp w => wire_seq w =? wire_seq (next_seq c) | Shutdown => true | Timeout => false end.
+Proof. exact ends_wire. Qed.
+Print Assumptions C12_match_is_wire_match.
+
+(* two requests of a connection carry the same number only if 2^24 or more requests lie between them *)
+Theorem C12_keys_distinct_within_window : forall c i j, (i < j)%nat -> N.of_nat (j - i) < two24 ->
+  seq_after (S i) c <> seq_after (S j) c.
+Proof. exact keys_distinct_within_window. Qed.
+Print Assumptions C12_keys_distinct_within_window.
+
+(* the first response echoing the request's sequence number ends the exchange: Answered, no further
    transmission whatever follows (more timeouts, duplicates, shutdown), no teardown *)
 Theorem C12_stop_on_match : forall n c tr1 w tr2, healthy c ->
   let k := next_seq (counter c) in
-  noend k tr1 -> timeouts tr1 <= n -> wire_seq w = k ->
+  noend k tr1 -> timeouts tr1 <= n -> wire_seq w = wire_seq k ->
   res (fst (exchange n c (tr1 ++ Resp w :: tr2))) = Answered /\
   sent (fst (exchange n c (tr1 ++ Resp w :: tr2))) = 1 + timeouts tr1 /\
   sent (fst (exchange n c tr1)) = 1 + timeouts tr1 /\
@@ -70,65 +87,37 @@ Theorem C12_dead_iff_all_lost : forall n c tr, healthy c ->
 Proof. exact dead_iff. Qed.
 Print Assumptions C12_dead_iff_all_lost.
 
-(* "matching" in the two theorems above is equality with the STORED number k.  It is equality of
-   what travels on the wire exactly while k < 2^24 (guard of the partial reading) ... *)
-Theorem C12_match_is_wire_match_partial : forall k e, k < two24 ->
-  ends k e = match e with Resp w => wire_seq w =? wire_seq k | Shutdown => true | Timeout => false end.
-Proof. exact ends_wire. Qed.
-Print Assumptions C12_match_is_wire_match_partial.
-
-(* ... and from 2^24 on (getSeqNum does not reduce modulo 2^24) no response can match: only time and
-   shutdown decide, the peer's answers are irrelevant (F31) *)
-Theorem C12_seq24_deaf : forall n c tr, healthy c -> two24 <= next_seq (counter c) -> no_shutdown tr = true ->
-  res (fst (exchange n c tr)) = (if n <? timeouts tr then Dead else Pending) /\
-  sent (fst (exchange n c tr)) = 1 + N.min n (timeouts tr).
-Proof. exact big_key_deaf. Qed.
-Print Assumptions C12_seq24_deaf.
-
-(* the full (wire-level) reading of stop_on_match / dead_iff_all_lost is false: after 2^24 - 1
-   requests on a connection, a peer that echoes every transmission at once is declared dead *)
-Theorem C12_stop_on_match_refuted :
-  healthy c24 /\ next_seq (counter c24) = two24 /\ wire_seq (next_seq (counter c24)) = 0 /\
-  let tr := [Resp 0; Timeout; Resp 0; Timeout; Resp 0; Timeout] in
-  res (fst (exchange 2 c24 tr)) = Dead /\ sent (fst (exchange 2 c24 tr)) = 3 /\
-  teardowns (snd (exchange 2 c24 tr)) = 1.
-Proof. exact c12_seq24_witness. Qed.
-Print Assumptions C12_stop_on_match_refuted.
-
-(* wrong-sequence responses at any time, and any response once the exchange is answered
-   (duplicates), change nothing: same state, same transmissions, same teardown *)
-Theorem C12_nonmatching_ignored_partial : forall n c tr1 w tr2, healthy c ->
+(* wrong-sequence responses at any time, and EVERY response once the exchange is over (duplicate of
+   the answer, late after the final timeout, after an abort), change nothing: same state, same
+   transmissions, same teardown *)
+Theorem C12_nonmatching_ignored : forall n c tr1 w tr2, healthy c ->
   let s1 := fst (exchange n c tr1) in
-  blocked (conn s1) = false -> wire_seq w <> key s1 \/ res s1 = Answered ->
+  wire_seq w <> wire_seq (key s1) \/ res s1 <> Pending ->
+  snd (step s1 (Resp w)) = [Ignored] /\
   fst (exchange n c (tr1 ++ Resp w :: tr2)) = fst (exchange n c (tr1 ++ tr2)) /\
   txs (snd (exchange n c (tr1 ++ Resp w :: tr2))) = txs (snd (exchange n c (tr1 ++ tr2))) /\
   teardowns (snd (exchange n c (tr1 ++ Resp w :: tr2))) = teardowns (snd (exchange n c (tr1 ++ tr2))).
 Proof. exact nonmatching_ignored. Qed.
-Print Assumptions C12_nonmatching_ignored_partial.
+Print Assumptions C12_nonmatching_ignored.
 
-(* the guard "reader not wedged" is free while the exchange is pending or answered *)
-Theorem C12_reader_free_while_live : forall n c tr, healthy c ->
-  res (fst (exchange n c tr)) = Pending \/ res (fst (exchange n c tr)) = Answered ->
-  blocked (conn (fst (exchange n c tr))) = false.
-Proof. exact live_reader_free. Qed.
-Print Assumptions C12_reader_free_while_live.
-
-(* the excluded shape (F30): a response that arrives after the final timeout (or after an abort)
-   finds the entry sendPFCPRequestMessage never removed; the reader blocks for good *)
-Theorem C12_late_after_dead_blocks_reader : forall n c tr w, healthy c ->
+Theorem C12_late_ignored : forall n c tr w, healthy c ->
   let s := fst (exchange n c tr) in
-  res s = Dead \/ res s = Aborted -> blocked (conn s) = false -> wire_seq w = key s ->
-  snd (step s (Resp w)) = [ReaderBlocked] /\ blocked (conn (fst (step s (Resp w)))) = true /\
-  forall w', step (fst (step s (Resp w))) (Resp w') = (fst (step s (Resp w)), [Unread]).
-Proof. exact c12_late_blocks. Qed.
-Print Assumptions C12_late_after_dead_blocks_reader.
+  res s <> Pending -> step s (Resp w) = (s, [Ignored]).
+Proof. exact c12_late_ignored. Qed.
+Print Assumptions C12_late_ignored.
 
-Theorem C12_late_ignored_refuted :
-  healthy fresh_conn /\
-  res (fst (exchange 0 fresh_conn [Timeout])) = Dead /\
-  snd (exchange 0 fresh_conn [Timeout; Resp 1; Resp 1; Resp 7]) = [Tx 1; Teardown; ReaderBlocked; Unread; Unread].
-Proof. exact c12_late_witness. Qed.
-Print Assumptions C12_late_ignored_refuted.
+(* in EVERY state a response is dealt with on the spot (no blocking hand-over exists) *)
+Theorem C12_reader_never_blocks : forall s w,
+  exists o, snd (step s (Resp w)) = [o] /\ (o = Deliver \/ o = Ignored \/ o = DeliverOther).
+Proof. exact step_resp_never_blocks. Qed.
+Print Assumptions C12_reader_never_blocks.
+
+(* the hypothesis [healthy] (no other request outstanding) re-establishes itself: however an exchange
+   ends, its entry is gone, so with one request in flight at a time it holds for a connection's whole life *)
+Theorem C12_health_is_invariant : forall n c who tr, healthy c -> res (fst (exchange n c tr)) <> Pending ->
+  healthy (fst (fst (call n c who tr))).
+Proof. exact call_leaves_clean. Qed.
+Print Assumptions C12_health_is_invariant.
 
 (* the connection lives on exactly when the exchange was answered acceptably (or is still open);
    once it is torn down nothing more is sent *)
@@ -206,12 +195,24 @@ Print Assumptions C12_features_octets.
 Example C12_nonvacuous_answered :
   healthy fresh_conn /\ noend 1 [Timeout; Resp 9; Timeout] /\
   exchange 2 fresh_conn [Timeout; Resp 9; Timeout; Resp 1; Resp 1; Timeout] =
-  (X 0 3 Answered 1 (C 1 [] false), [Tx 1; Tx 1; Ignored; Tx 1; Deliver; Ignored]).
+  (X 0 3 Answered 1 (C 1 []), [Tx 1; Tx 1; Ignored; Tx 1; Deliver; Ignored]).
 Proof. vm_compute. repeat split; reflexivity. Qed.
 
 Example C12_nonvacuous_dead :
-  exchange 2 fresh_conn [Timeout; Timeout; Timeout] = (X 0 3 Dead 1 (C 1 [1] false), [Tx 1; Tx 1; Tx 1; Teardown]).
+  exchange 2 fresh_conn [Timeout; Timeout; Timeout] = (X 0 3 Dead 1 (C 1 []), [Tx 1; Tx 1; Tx 1; Teardown]).
 Proof. vm_compute. reflexivity. Qed.
+
+(* the 2^24-th request of a connection: counter wraps to 0, the echo matches (was F31) *)
+Example C12_wrap_works :
+  healthy c24 /\ next_seq (counter c24) = 0 /\
+  exchange 2 c24 [Resp 0; Timeout; Resp 0] = (X 2 1 Answered 0 (C 0 []), [Tx 0; Deliver; Ignored]).
+Proof. exact c12_wrap_witness. Qed.
+
+(* the answer after the final timeout is ignored, so are later datagrams (was F30) *)
+Example C12_late_after_dead_ignored :
+  healthy fresh_conn /\
+  exchange 0 fresh_conn [Timeout; Resp 1; Resp 1; Resp 7] = (X 0 1 Dead 1 (C 1 []), [Tx 1; Teardown; Ignored; Ignored; Ignored]).
+Proof. exact c12_late_witness. Qed.
 
 Example C12_nonvacuous_ticker :
   trun 5 (tstart 5) [Wait 3; TReset; Wait 4; TReset; Wait 4; Wait 1; Wait 5] = (T 5 true, 2).
